@@ -74,10 +74,10 @@ func runC07(r *Run) {
 	}
 	var toClient, toBackend []pm
 	for i, n := 0, r.W.Pick(4); i < n; i++ {
-		toClient = append(toClient, pm{[]string{"verif:a", "verif:long/path.x", "minecraft:brand2"}[r.W.Pick(3)], genBytes(r, []int{0, 1, 300, 5000}[r.W.Pick(4)])})
+		toClient = append(toClient, pm{[]string{"verif:a", "verif:long/path.x", "minecraft:brand2"}[r.W.Pick(3)], append([]byte{byte(i + 1)}, genBytes(r, []int{0, 1, 300, 5000}[r.W.Pick(4)])...)})
 	}
 	for i, n := 0, r.W.Pick(3); i < n; i++ {
-		toBackend = append(toBackend, pm{[]string{"verif:b", "verif:q"}[r.W.Pick(2)], genBytes(r, []int{1, 200, 3000}[r.W.Pick(3)])})
+		toBackend = append(toBackend, pm{[]string{"verif:b", "verif:q"}[r.W.Pick(2)], append([]byte{byte(i + 1)}, genBytes(r, []int{1, 200, 3000}[r.W.Pick(3)])...)})
 	}
 	if prot.Lower(version.Minecraft_1_13) {
 		// legacy channel names are not namespaced; the API maps identifiers
